@@ -312,6 +312,7 @@ class Check(PropertyCheck):
         out.append({'kind': 'roots', 'roots': ['pkg/', 'pkg'], 'project_name': None, 'probe': 'pkg'})
         out.append({'kind': 'roots', 'roots': ['pkg', 'pkg/'], 'project_name': None, 'probe': 'other'})
         out.append({'kind': 'roots', 'roots': ['pkg', 'pkg'], 'project_name': None, 'probe': 'pkg'})
+        out.append({'kind': 'roots', 'roots': ['index'], 'project_name': None, 'probe': 'index'})
         self.stats['roots_exhaustive'] = len(out)
         self.stats['roots_exhaustive_bound'] = 'every ordered list of 1..3 distinct roots out of 4 x {no project name, explicit} + same-named roots'
         return out
@@ -354,7 +355,9 @@ class Check(PropertyCheck):
         out += self.tie_fs()
         out += self.tie_sort()
         out += self.tie_roots()
+        out += self.tie_templates()
         out += self.tie_counters_ops()
+        out += self.known_template_collision()
         out += self.differential(self.cli_cases(), self.seeds())
         return out
 
@@ -466,6 +469,40 @@ class Check(PropertyCheck):
         self.sample({'roots': cases[5]})
         return out
 
+    # ---- C'. TemplateLookup over an unsorted template directory listing
+    def tie_templates(self) -> List[Violation]:
+        names = ['a.css', 'A.css', 'b.js', 'B.JS', 'c.txt']
+        cases = []
+        for base in ([], [['a.css', 90]], [['B.js', 91], ['c.txt', 92]]):
+            for k in range(0, 4):
+                for sub in itertools.combinations(names, k):
+                    files = [[n, i + 1] for i, n in enumerate(sub)]
+                    for perm in itertools.permutations(files):
+                        cases.append({'kind': 'templates', 'base': base, 'files': list(perm)})
+        self.stats['templates_exhaustive'] = len(cases)
+        impl = lib.run_impl_worker('c18_tie.py', cases, jobs=8)
+        mod = self.model('det', [enc([5, c['files'], c['base']]) for c in cases])
+        out: List[Violation] = []
+        groups: Dict[str, Any] = {}
+        for c, r, m in zip(cases, impl, mod):
+            self.evaluations += 1
+            mm = [[txt(e[0]), e[1]] for e in dec(m)]
+            if r.get('templates') != mm and len(out) < 5:
+                out.append(Violation('correspondence', 'TemplateLookup after add_templatedir differs from Model.load_dir',
+                                     case=c, expected=mm, observed=r))
+            lowered = [n.lower() for n, _ in c['files']]
+            key = json.dumps([c['base'], sorted(c['files'])])
+            first = groups.setdefault(key, (c, r))
+            if 'templates' in r and sorted(first[1].get('templates', [])) != sorted(r['templates']):
+                collide = len(set(lowered)) < len(lowered)
+                self.count('templates_listing_dependent_' + ('case_collision' if collide else 'OTHER'))
+                if len([v for v in out if v.kind == 'oracle']) < 4:
+                    out.append(Violation('oracle', 'the templates written depend on the order in which the template directory is listed: '
+                                         '%s vs %s' % (first[1]['templates'], r['templates']),
+                                         case={'kind': 'templates_pair', 'a': first[0], 'b': c, 'case_collision': collide},
+                                         observed=[first[1], r]))
+        return out
+
     # ---- D. counters and file operations of complete runs
     def small_project(self, k: int) -> Dict[str, Any]:
         rng = random.Random(self.seed * 7 + k)
@@ -558,10 +595,45 @@ class Check(PropertyCheck):
             else:
                 c = gen_project(self.rng)
             out.append(c)
+        # corpus: a single root module called index (index.html must stay a regular file), and two unnamed roots
+        out.append({'files': {'index.py': '"""Idx."""\nclass K:\n    """k"""\n    def run(self): pass\n'}, 'dirs': [], 'roots': ['index.py'],
+                    'args': ['-q'], 'time': 'epoch'})
+        out.append({'files': {'b/__init__.py': '', 'b/m.py': 'class A: pass\n', 'b/M.py': 'class a: pass\n', 'a.py': 'from b.m import A\nclass B(A): pass\n'},
+                    'dirs': [], 'roots': ['b', 'a.py'], 'args': ['-q'], 'time': 'buildtime'})
         if self.tier == 'thorough':
             out.append({'external': 'pydoctor', 'files': {}, 'roots': [], 'args': ['-q', '--project-name=pydoctor', '--docformat=epytext'],
                         'time': 'epoch'})
         return out
+
+    @staticmethod
+    def wrapper_order(seed: int, salt: str, names: List[str]) -> List[str]:
+        """what c18_wrapper.py makes iterdir() return for a directory with these entries"""
+        lst = sorted(names)
+        random.Random('%d:%s' % (seed, salt)).shuffle(lst)
+        return lst
+
+    def known_template_collision(self) -> List[Violation]:
+        """corpus: a --template-dir with two names that differ only in case (known finding C18-template-case-collision)"""
+        tpl = {'more.css': 'a{}\n', 'MORE.css': 'b{}\n', 'other.js': '//\n'}
+        want: Dict[bool, int] = {}
+        for s in range(1, 200):
+            o = self.wrapper_order(s, 'src/templates_dir', list(tpl))
+            want.setdefault(o.index('more.css') < o.index('MORE.css'), s)
+            if len(want) == 2:
+                break
+        case = {'files': {'solo.py': '"""Solo."""\nclass K:\n    """k"""\n'}, 'dirs': [], 'roots': ['solo.py'],
+                'args': ['-q', '--project-name=P'], 'time': 'epoch', 'templates': tpl}
+        seeds = [0, want[True], want[False]]
+        r = lib.run_impl_worker('c18_cli.py', {'cases': [case], 'seeds': seeds, 'jobs': 1})[0]
+        self.evaluations += r['runs']
+        self.count('known_finding_corpus_runs', r['runs'])
+        if r['equal']:
+            self.notes.append('known finding C18-template-case-collision did NOT reproduce (fixed upstream?)')
+            return []
+        d = r['diff']
+        return [Violation('oracle', 'two runs with the same --template-dir (names differing only in case) give different output trees: '
+                          '%s: %s' % (d.get('file'), d.get('what')),
+                          case={'kind': 'cli', 'case': case, 'seeds': seeds}, observed=d)]
 
     def differential(self, cases: List[Any], seeds: List[int], limit: int = 3) -> List[Violation]:
         out: List[Violation] = []
@@ -633,19 +705,22 @@ class Check(PropertyCheck):
         return found[:1]
 
     def classify_known(self, v: Violation, known: List[dict]) -> Optional[dict]:
+        c = v.case if isinstance(v.case, dict) else {}
         for k in known:
             m = k.get('match', {})
-            c = v.case if isinstance(v.case, dict) else {}
-            if m.get('kind') and c.get('kind') != m['kind']:
-                continue
-            if 'file_regex' in m:
-                import re
-                f = (v.observed or {}).get('file', '') if isinstance(v.observed, dict) else ''
-                if not re.search(m['file_regex'], f or ''):
+            if m.get('class') == 'template-case-collision':
+                # exactly: a custom template dir holds two names equal when lower-cased, and the difference is in those files
+                if c.get('kind') == 'templates_pair':
+                    if c.get('case_collision'):
+                        return k
                     continue
-            if 'what_contains' in m and m['what_contains'] not in v.what:
-                continue
-            return k
+                if c.get('kind') == 'cli':
+                    tpl = list(c['case'].get('templates', {}))
+                    low = [t.lower() for t in tpl]
+                    colliding = {t.lower() for t in tpl if low.count(t.lower()) > 1}
+                    f = (v.observed or {}).get('file', '') if isinstance(v.observed, dict) else ''
+                    if colliding and f.lower() in colliding:
+                        return k
         return None
 
     def replay(self, data: Any) -> int:
@@ -671,6 +746,12 @@ class Check(PropertyCheck):
             print('listing B:', case['b']['roots'], '->', rb['unproc'])
             print('property : the same directory content must give the same modules in the same order')
             return 1 if ra != rb else 0
+        if kind == 'templates_pair':
+            ra, rb = lib.run_impl_worker('c18_tie.py', [case['a'], case['b']])
+            print('listing A:', case['a']['files'], '->', ra)
+            print('listing B:', case['b']['files'], '->', rb)
+            print('property : the same template directory must give the same static files whatever the listing order')
+            return 1 if sorted(ra.get('templates', [])) != sorted(rb.get('templates', [])) else 0
         if kind == 'fs':
             r = lib.run_impl_worker('c18_tie.py', [case])[0]
             m = self.model_fs_standalone(case['roots'])
